@@ -3,7 +3,13 @@
 //                          vectorize, project_to_R, compute_maximum, number_of_levels constructor
 //   config exact_algebra : + - * (both orders) += -= *= /= abs new_abs compute_average are the pointwise operations
 //   config exact_metric  : L^1, L^2, sup distances, norms and inner product equal the exact integrals; metric and
-//                          bilinearity laws
+//                          bilinearity laws.  One operand may be an average or a difference a*L0 - L1 (an element of the
+//                          vector space with negative values and non-monotone levels); 1 case in 3 is translated far from
+//                          the origin (the oracle integrates the untranslated diagrams: every quantity is translation
+//                          invariant)
+//   config exact_edge    : find_max(k) / vectorize(k) for every k in 0..size()+1 (levels that do not exist are the zero
+//                          function), diagrams that give no level at all.  Kept apart because an out-of-range read there
+//                          kills the process (and the remaining observations of the case with it)
 #include <gudhi/Persistence_landscape.h>
 #include "common/vh.h"
 #include "landscape_def.h"
@@ -87,6 +93,8 @@ void values_case(vh::Case& c) {
   vh::Rng& r = c.rng;
   Origin o = pick_origin(r);
   c18::GenOpts go; go.R = 32; go.max_m = (c.thorough && r.chance(1, 5)) ? 20 : 12;
+  const bool large = r.chance(1, 25);   // 20-80 intervals, either crowded (41 possible coordinates: heavy ties) or spread out
+  if (large) { go.min_m = 20; go.max_m = 80; go.R = r.chance(1, 2) ? 40 : 400; c.count("diag.large.exact"); }
   c18::DiagInfo di = c18::gen_diagram(r, go);
   Diagram D = c18::to_coords(di, o.origin, o.step);
   c18::count_classes(c, di);
@@ -99,6 +107,12 @@ void values_case(vh::Case& c) {
   Fn f(D);
   std::vector<double> knots = f.knots();
   std::vector<double> xs = with_random_points(r, lsdef::eval_points(f), o, go.R, 6);
+  if (large && xs.size() > 300) {   // thousands of candidate breakpoints: a random sample of them (all levels at each)
+    r.shuffle(xs); xs.resize(300); std::sort(xs.begin(), xs.end());
+  }
+  std::vector<double> want_int, want_sup;
+  lsdef::integrals_and_sups_of_levels(f, want_int, want_sup);
+  want_int.resize(std::max(m, L.size()) + 2, 0.0); want_sup.resize(std::max(m, L.size()) + 2, 0.0);
   c.log("construct; evaluate " + vh::str(xs.size()) + " points x " + vh::str(m + 2) + " levels");
   // every block below is a pure query of L: a mismatch in one block does not invalidate the others, so all blocks run
   // (each stops at its own first mismatch)
@@ -109,7 +123,7 @@ void values_case(vh::Case& c) {
   c.log("integrals");
   double tot1 = 0;
   for (size_t k = 0; k < m + 2; ++k) {
-    double want = lsdef::integral_level(f, k);
+    double want = want_int[k];
     tot1 += want;
     if (!check_scalar(c, L.compute_integral_of_a_level_of_a_landscape(k), want, kIntTol, "exact.integral_level", cls, "integral of level " + vh::str(k))) return false;
     if (!check_scalar(c, L.project_to_R((int)k), want, kIntTol, "exact.project_to_R", cls, "project_to_R(" + vh::str(k) + ")")) return false;
@@ -127,7 +141,7 @@ void values_case(vh::Case& c) {
   c.log("vectorize / maximum");
   for (size_t k = 0; k < L.size() && k < L.number_of_vectorize_functions(); ++k) {
     std::vector<double> v = L.vectorize((int)k);
-    double sup = lsdef::sup_level(f, k), mx = 0;
+    double sup = want_sup[k], mx = 0;
     bool in_range = true;
     for (double y : v) { mx = std::max(mx, y); if (y < 0 || y > sup + kValTol) in_range = false; }
     c.count("cmp.exact.vectorize");
@@ -136,7 +150,10 @@ void values_case(vh::Case& c) {
       return false;
     }
   }
-  if (!check_scalar(c, L.compute_maximum(), lsdef::sup_level(f, 0), kValTol, "exact.maximum", cls, "compute_maximum()")) return false;
+  if (!check_scalar(c, L.compute_maximum(), want_sup[0], kValTol, "exact.maximum", cls, "compute_maximum()")) return false;
+  // find_max(k): supremum of level k (levels k >= size(): config exact_edge)
+  for (size_t k = 0; k < L.size(); ++k)
+    if (!check_scalar(c, L.find_max((unsigned)k), want_sup[k], kValTol, "exact.find_max", cls + ",level=exists", "find_max(" + vh::str(k) + ")")) return false;
 
     return true;
   }() && ok;
@@ -249,16 +266,38 @@ void algebra_case(vh::Case& c) {
   Persistence_landscape AT = T.abs();
   ok = check_fn(c, AT, ft, true, "exact.abs", cls, r, o) && ok;
 
+  // the right-hand side is the object itself
+  c.log("U=L0; U+=U; V=L1; V-=V"); c.count("op.compound.self.exact", 2);
+  {
+    Persistence_landscape U = L0; U += U;
+    ok = check_fn(c, U, lsdef::scaled(f0, 2.0), false, "exact.compound_assign", cls + ",self", r, o) && ok;
+    Persistence_landscape V = L1; V -= V;
+    ok = check_fn(c, V, lsdef::scaled(f1, 0.0), false, "exact.compound_assign", cls + ",self", r, o) && ok;
+  }
+
   // averages of 1..5 landscapes (with repetitions)
   int n = 1 + (int)r.below(5);
   std::vector<Persistence_landscape*> ptrs; Fn fav; std::string lg = "average of";
   Persistence_landscape* Ls[3] = {&L0, &L1, &L2};
   for (int i = 0; i < n; ++i) { int j = (int)r.below(3); ptrs.push_back(Ls[j]); fav.terms.push_back(lsdef::Term{1.0 / n, &t.D[j]}); lg += " L" + vh::str(j); }
   c.log(lg); c.count("op.average"); c.count("op.average.n" + vh::str(n));
+  const std::string nsig = ",n=" + std::string(n == 1 ? "1" : n == 2 ? "2" : "3+");
   Persistence_landscape Av;
   if (r.chance(1, 2)) Av = L2;   // compute_average must overwrite whatever was stored
   Av.compute_average(ptrs);
-  ok = check_fn(c, Av, fav, false, "exact.average", cls + ",n=" + std::string(n == 1 ? "1" : n == 2 ? "2" : "3+"), r, o) && ok;
+  ok = check_fn(c, Av, fav, false, "exact.average", cls + nsig, r, o) && ok;
+  // the destination is one of the operands (running average  X = average(X, M, ...)): same function
+  {
+    Persistence_landscape* dest = ptrs[r.below(ptrs.size())];
+    Persistence_landscape X = *dest;
+    std::vector<Persistence_landscape*> aliased = ptrs;
+    size_t occurrences = 0;
+    for (auto& q : aliased) if (q == dest) { q = &X; ++occurrences; }
+    c.log("X := L" + vh::str(dest == &L0 ? 0 : dest == &L1 ? 1 : 2) + "; X.compute_average(the same list with X in place of that operand, " + vh::str(occurrences) + " times)");
+    c.count("op.average.aliased.exact");
+    X.compute_average(aliased);
+    ok = check_fn(c, X, fav, false, "exact.average", cls + ",aliased" + nsig, r, o) && ok;
+  }
 
   // new_abs(): same contract as abs(), result on the heap.  Last, because it is the least used entry point.
   c.log("new_abs(L0 - L1)"); c.count("op.new_abs");
@@ -276,13 +315,33 @@ void metric_case(vh::Case& c) {
   vh::Rng& r = c.rng;
   Three t = gen_three(c, 10);
   std::string cls = cls3(t);
-  Persistence_landscape L[3] = {Persistence_landscape(t.D[0]), Persistence_landscape(t.D[1]), Persistence_landscape(t.D[2])};
+  // Far from the origin: the library gets the diagrams translated by T, the oracle keeps the untranslated ones (distances,
+  // norms and inner products are translation invariant), so the expected values are as exact as without translation.
+  // Dyadic coordinates only: there the translation is exact.
+  Diagram DT[3] = {t.D[0], t.D[1], t.D[2]};
+  if (t.o.dyadic && r.chance(1, 3)) {
+    static const double kFar[] = {1e3, -1e3, 1e5, -1e5, 1e7};
+    const double T = kFar[r.below(5)];
+    c.log("all three diagrams translated by " + vh::str(T) + " before the landscapes are built");
+    c.count("diag.far_origin.exact", 3);
+    for (auto& D : DT) for (auto& p : D) { p.first += T; p.second += T; }
+    cls += ",far_origin";
+  }
+  Persistence_landscape L[3] = {Persistence_landscape(DT[0]), Persistence_landscape(DT[1]), Persistence_landscape(DT[2])};
   Fn f[3] = {Fn(t.D[0]), Fn(t.D[1]), Fn(t.D[2])};
   if (r.chance(1, 4)) {   // third operand is an average landscape
     c.log("L2 := average(L0, L1, L2)"); c.count("op.average_as_operand");
     Persistence_landscape Av; Av.compute_average({&L[0], &L[1], &L[2]});
     Fn fav; for (int j = 0; j < 3; ++j) fav.terms.push_back(lsdef::Term{1.0 / 3, &t.D[j]});
     L[2] = Av; f[2] = fav; cls += ",with_average";
+  } else if (r.chance(1, 3)) {
+    // an element of the vector space that is not the landscape of a diagram: its levels are not decreasing in k and it can
+    // be negative, also on levels that the other operand does not have (same operand as config grid_metric)
+    double a = 1 + (double)r.below(3);
+    c.log("L2 := " + vh::str(a) + "*L0 - L1"); c.count("op.difference_as_operand.exact");
+    Persistence_landscape Df = a * L[0] - L[1];
+    Fn fd = lsdef::minus(lsdef::scaled(f[0], a), f[1]);
+    L[2] = Df; f[2] = fd; cls += ",with_difference";
   }
   // The observations below are pure queries, so a mismatch in one section (one exponent, or the inner product)
   // does not invalidate the others: every section runs, each stops at its own first mismatch.
@@ -356,6 +415,64 @@ void metric_case(vh::Case& c) {
   c.sample("{\"history\":\"" + vh::jesc(vh::G().history.substr(0, 700)) + "\"}");
 }
 
+// ------------------------------------------------------------------------------------------------ exact_edge
+// Level numbers around size(): a level that does not exist is the zero function (compute_value_at_a_given_point,
+// compute_integral_of_a_level_of_a_landscape and project_to_R say so for every k >= size()), so its supremum is 0 and the
+// values it takes are all 0 (an empty list of values is accepted).
+void edge_case(vh::Case& c) {
+  vh::Rng& r = c.rng;
+  Origin o = pick_origin(r);
+  c18::GenOpts go; go.R = 32; go.max_m = 6;
+  c18::DiagInfo di;
+  unsigned u = (unsigned)r.below(6);
+  if (u == 0) { /* empty diagram: no level at all */ }
+  else if (u == 1) { int x = c18::coord(r, go); di.iv.push_back(std::make_pair(x, x)); if (r.chance(1, 2)) di.iv.push_back(std::make_pair(x, x)); c18::classify(di); }  // zero-length only
+  else di = c18::gen_diagram(r, go);
+  Diagram D = c18::to_coords(di, o.origin, o.step);
+  c18::count_classes(c, di);
+  c.log("diagram " + c18::show(D));
+  const std::string cls = "diagram=" + std::string(D.empty() ? "empty" : di.cls()) + coords(o);
+  Persistence_landscape L(D);
+  Fn f(D);
+  const size_t sz = L.size();
+  c.count(sz == 0 ? "edge.landscape_without_levels" : "edge.landscape_with_levels");
+  bool ok = true;
+  // k == size() comes last and only in one case out of three: where the library reads out of range there, the process dies
+  // and takes the rest of the case (and the counters of its shard) with it
+  std::vector<size_t> ks;
+  for (size_t k = 0; k <= sz + 1; ++k) if (k != sz) ks.push_back(k);
+  if (r.chance(1, 3)) ks.push_back(sz);
+  const bool vectorize_first = r.chance(1, 2);
+  for (size_t k : ks) {
+    if (!ok) break;
+    const char* lname = k < sz ? "exists" : k == sz ? "size" : "beyond_size";
+    const std::string lv = std::string(",level=") + lname;
+    const double sup = lsdef::sup_level(f, k);
+    for (int step = 0; step < 2 && ok; ++step) {
+      if ((step == 0) == vectorize_first) {
+        c.log("vectorize(" + vh::str(k) + ") with size()=" + vh::str(sz));
+        std::vector<double> v = L.vectorize((int)k);
+        c.count(std::string("edge.vectorize.") + lname);
+        double mx = 0; bool in_range = true;
+        for (double y : v) { mx = std::max(mx, y); if (y < 0 || y > sup + kValTol) in_range = false; }
+        c.count("cmp.exact.vectorize");
+        if (!in_range || !c18::close(mx, sup, kValTol)) {
+          c.violation("exact.vectorize", cls + lv, "vectorize(" + vh::str(k) + ") = " + vh::vstr(v) + " but sup of the level is " + vh::str(sup));
+          ok = false;
+        }
+      } else {
+        c.log("find_max(" + vh::str(k) + ") with size()=" + vh::str(sz));
+        const double got = L.find_max((unsigned)k);
+        c.count(std::string("edge.find_max.") + lname);
+        ok = check_scalar(c, got, sup, kValTol, "exact.find_max", cls + lv, "find_max(" + vh::str(k) + ")");
+      }
+    }
+  }
+  if (ok) ok = check_scalar(c, L.compute_maximum(), lsdef::sup_level(f, 0), kValTol, "exact.maximum", cls, "compute_maximum()");
+  if (ok && sz >= 1) c.nontrivial(vh::hash_str(vh::G().history));
+  c.sample("{\"history\":\"" + vh::jesc(vh::G().history.substr(0, 600)) + "\"}");
+}
+
 template <void (*F)(vh::Case&)>
 void guarded(vh::Case& c) {
   try { F(c); }
@@ -367,4 +484,5 @@ void guarded(vh::Case& c) {
 VH_CONFIG("exact_values", guarded<values_case>);
 VH_CONFIG("exact_algebra", guarded<algebra_case>);
 VH_CONFIG("exact_metric", guarded<metric_case>);
+VH_CONFIG("exact_edge", guarded<edge_case>);
 VH_MAIN()
